@@ -50,8 +50,9 @@ WIDTHS = [1, 2, 10, 20, 80, 200, 10000]
 def _classes():
     import ctrlrun
     from asyncio_taskpool.pool import SimpleTaskPool, TaskPool
-    SubA, SubB = ctrlrun.make_subclasses()
-    return {"TaskPool": TaskPool, "SimpleTaskPool": SimpleTaskPool, "SubA": SubA, "SubB": SubB}
+    SubA, SubB, SubC = ctrlrun.make_subclasses()
+    return {"TaskPool": TaskPool, "SimpleTaskPool": SimpleTaskPool, "SubA": SubA, "SubB": SubB,
+            "SubC": SubC}
 
 
 def model_table(surf_lines):
@@ -137,7 +138,7 @@ def job_c16(clsname, width, seed=0):
         if width == 10000:
             listed = []
             for ln in top.split("\n"):
-                m = __import__("re").match(r"^    ([a-z][a-z0-9-]*)\s", ln)
+                m = __import__("re").match(r"^    ([A-Za-z][A-Za-z0-9_-]*)\s", ln)
                 if m:
                     listed.append(m.group(1))
             if sorted(listed) != sorted(table):
@@ -222,7 +223,8 @@ def job_c17(clsname, seed, count, replay_calls=None):
         calls = replay_calls
     else:
         weights = [3 if c in ("apply", "map", "starmap", "doublestarmap", "start", "cancel", "stop",
-                              "pool-size", "hello", "many", "label", "halt", "ratio") else 1 for c in cmds]
+                              "pool-size", "hello", "many", "label", "halt", "ratio", "runJob", "maxLoad",
+                              "info", "INFO") else 1 for c in cmds]
         calls = []
         for _ in range(count):
             c = rng.choices(cmds, weights)[0]
@@ -347,10 +349,16 @@ def job_c18(clsname, seed, count, two_sessions=False, replay_lines=None):
             except BaseException as e:    # noqa: BLE001
                 kind, out = "escape", repr(e)
             buf.seek(0); buf.truncate()
-            if kind == "ok" and line.split(" ")[0] == "until-closed":
+            if kind == "ok" and line.split(" ")[0] in ("until-closed", "gather-and-close"):
                 # a command that waits (legitimately answered only when the pool is closed) would
                 # block this session's remaining input: not sent
                 kinds["skipped-waiting"] += 1
+                continue
+            if kind == "ok" and line.split(" ")[0] in ("apply", "map", "starmap", "doublestarmap", "start"):
+                # a well-formed spawning command starts background activity, after which "this
+                # line did not alter the pool" can no longer be judged from outside (C17 covers
+                # what valid commands do): not sent by this fuzzer
+                kinds["skipped-spawning"] += 1
                 continue
             kinds[kind] += 1
             before = ctrlrun.pool_obs(A)
@@ -423,13 +431,13 @@ def jobs(pid, tier, seed):
     js = []
     base = seed * 7919 + int(pid[1:]) * 101
     if pid == "C16":
-        for c in ("TaskPool", "SimpleTaskPool", "SubA", "SubB"):
+        for c in ("TaskPool", "SimpleTaskPool", "SubA", "SubB", "SubC"):
             for w in WIDTHS:
                 js.append(("prop_ctrl", "job_c16", {"clsname": c, "width": w}))
     elif pid == "C17":
         n, cnt = (16, 40) if tier == "quick" else (96, 120)
         for k in range(n):
-            c = ["TaskPool", "SimpleTaskPool", "SubA", "SubB", "TaskPool"][k % 5]
+            c = ["TaskPool", "SimpleTaskPool", "SubA", "SubB", "TaskPool", "SubC"][k % 6]
             js.append(("prop_ctrl", "job_c17", {"clsname": c, "seed": base + k, "count": cnt}))
     elif pid == "C18":
         n, cnt = (16, 60) if tier == "quick" else (96, 200)
